@@ -12,6 +12,7 @@ mentions `Float`).
 import XlModel.Lemmas.Calc
 import XlModel.Lemmas.CalcAgree
 import XlModel.Lemmas.CalcInt
+import XlModel.CalcCheck
 
 namespace XlModel.Props.C08
 open XlModel XlModel.Calc XlModel.Facts.C08 NumOps
@@ -796,6 +797,368 @@ theorem binop_agree {N : Type} [NumOps N] (L : Lawful N) (C : LawfulCmp N) (op :
   case ne =>
     have hn := compatEq_notErr a b h
     exact cmpR (eq_agree L C .ne (Or.inr rfl) a b h) _ (show Spec.binop .ne a b = _ from cmpBool (· != .eq) hn.1 hn.2)
+
+/-! ### the whole tree -/
+
+def IsErr {N : Type} : Spec.Val N → Prop
+  | .err _ => True
+  | _ => False
+
+def b2n {N : Type} [NumOps N] (b : Bool) : N := if b then one else zero
+
+/-- operands on which unary minus is Excel's: numbers, booleans, blanks, numeric text (an error
+propagates); non-numeric text is `finding_neg_text` -/
+def NegOK {N : Type} [NumOps N] : Spec.Val N → Prop
+  | .err _ => True
+  | .num x => isNaN x = false ∧ Finite (sub zero x)
+  | .bool b => Finite (sub zero (b2n b : N))
+  | .blank => Finite (sub (zero : N) zero)
+  | .text s => ∃ x : N, parse s = some x ∧ isNaN x = false ∧ Finite (sub zero x)
+
+/-- operands on which postfix % is Excel's: numbers, booleans, blanks (text: `finding_pct_text`) -/
+def PctOK {N : Type} [NumOps N] : Spec.Val N → Prop
+  | .err _ => True
+  | .num x => Finite (div x (ofNat 100))
+  | .bool b => Finite (div (b2n b : N) (ofNat 100))
+  | .blank => Finite (div (zero : N) (ofNat 100))
+  | .text _ => False
+
+/-- the two cell environments describe the same workbook: every referenced cell is known to both
+or to neither, holds no error value (`ref:error-not-propagated`), and reaches `calculate` as
+`toImpl` of its Excel value -/
+def EnvRel {N : Type} [NumOps N] (envI : Str → Option (Impl.CellArg N)) (envS : Str → Option (Spec.Val N)) : Prop :=
+  ∀ k, match envS k, envI k with
+    | none, none => True
+    | some a, some c => NotErr a ∧ Impl.tokenToArg (Impl.argToTok c) = toImpl a
+    | _, _ => False
+
+/-- no node of the tree is one of the listed deviant (operator, operand-kind) combinations -/
+def NoDeviant {N : Type} [NumOps N] (envS : Str → Option (Spec.Val N)) : Expr → Prop
+  | .num raw => ∃ x : N, parse raw = some x ∧ isNaN x = false
+  | .text _ => True
+  | .logical _ => True
+  | .ref _ => True
+  | .paren e => NoDeviant envS e
+  | .neg e => NoDeviant envS e ∧ (∀ e', e ≠ .neg e') ∧ NegOK (Spec.eval envS e)
+  | .pct e => NoDeviant envS e ∧ PctOK (Spec.eval envS e)
+  | .bin op l r => NoDeviant envS l ∧ NoDeviant envS r ∧
+      (IsErr (Spec.eval envS l) ∨ IsErr (Spec.eval envS r) ∨
+        Compatible op (Spec.eval envS l) (Spec.eval envS r))
+
+theorem R_ok {N : Type} [NumOps N] (r : Except Impl.MErr (Impl.Arg N)) (a : Spec.Val N) (h : ¬ IsErr a) :
+    R r a ↔ r = .ok (toImpl a) := by
+  cases a <;> simp_all [R, IsErr]
+
+theorem R_err {N : Type} [NumOps N] (r : Except Impl.MErr (Impl.Arg N)) (a : Spec.Val N) (h : IsErr a) :
+    R r a ↔ ∃ m, r = .error m := by
+  cases a <;> simp_all [R, IsErr]
+
+theorem spec_binop_err {N : Type} [NumOps N] (op : Op) (a b : Spec.Val N) (h : IsErr a ∨ IsErr b) :
+    IsErr (Spec.binop op a b) := by
+  cases op <;> cases a <;> cases b <;>
+    simp_all [IsErr, Spec.binop, Spec.arith, Spec.operandErr, Spec.compare, Spec.ofExcept, Spec.toText]
+
+theorem spec_neg_err {N : Type} [NumOps N] (a : Spec.Val N) (h : IsErr a) : IsErr (Spec.neg a) := by
+  cases a <;> simp_all [IsErr, Spec.neg, Spec.toNum, Spec.ofExcept]
+
+theorem spec_pct_err {N : Type} [NumOps N] (a : Spec.Val N) (h : IsErr a) : IsErr (Spec.pct a) := by
+  cases a <;> simp_all [IsErr, Spec.pct, Spec.toNum, Spec.ofExcept]
+
+theorem neg_R {N : Type} [NumOps N] (L : Lawful N) (hpn : (parse ([] : Str) : Option N) = none)
+    (a : Spec.Val N) (hn : ¬ IsErr a) (h : NegOK a) :
+    R (.ok (Impl.negate (toImpl a))) (Spec.neg a) := by
+  cases a with
+  | err c => exact absurd trivial hn
+  | num x =>
+    obtain ⟨h1, h2⟩ := h
+    have := R_num _ h2
+    simpa [Impl.negate, Impl.toNumberField, Impl.toNumber, toImpl, h1, Spec.neg, Spec.toNum, Spec.ofExcept] using this
+  | bool b =>
+    have := R_num _ h
+    have hb : isNaN (if b then one else zero : N) = false := by cases b <;> simp [L.nan_zero, L.nan_one]
+    simpa [Impl.negate, Impl.toNumberField, Impl.toNumber, toImpl, Impl.mkBool, hb, Spec.neg, Spec.toNum,
+      Spec.ofExcept, b2n] using this
+  | blank =>
+    have := R_num _ h
+    simpa [Impl.negate, Impl.toNumberField, Impl.toNumber, toImpl, hpn, Spec.neg, Spec.toNum,
+      Spec.ofExcept] using this
+  | text s =>
+    obtain ⟨x, hp, h1, h2⟩ := h
+    have := R_num _ h2
+    simpa [Impl.negate, Impl.toNumberField, Impl.toNumber, toImpl, hp, h1, Spec.neg, Spec.toNum,
+      Spec.ofExcept] using this
+
+theorem pct_R {N : Type} [NumOps N] (a : Spec.Val N) (hn : ¬ IsErr a) (h : PctOK a) :
+    R (.ok (Impl.percent (toImpl a))) (Spec.pct a) := by
+  have hd : percentDivisor = 100 := by decide
+  cases a with
+  | err c => exact absurd trivial hn
+  | text s => exact absurd h (by simp [PctOK])
+  | num x =>
+    have := R_num _ h
+    simpa [Impl.percent, Impl.numberField, toImpl, hd, Spec.pct, Spec.toNum, Spec.ofExcept] using this
+  | bool b =>
+    have := R_num _ h
+    simpa [Impl.percent, Impl.numberField, toImpl, Impl.mkBool, hd, Spec.pct, Spec.toNum, Spec.ofExcept, b2n] using this
+  | blank =>
+    have := R_num _ h
+    simpa [Impl.percent, Impl.numberField, toImpl, hd, Spec.pct, Spec.toNum, Spec.ofExcept] using this
+
+/-- the structural evaluator agrees with Excel on every tree without deviant nodes -/
+theorem tree_agree {N : Type} [NumOps N] (L : Lawful N) (C : LawfulCmp N)
+    (hpn : (parse ([] : Str) : Option N) = none)
+    (envI : Str → Option (Impl.CellArg N)) (envS : Str → Option (Spec.Val N)) (hE : EnvRel envI envS)
+    (e : Expr) (hN : NoDeviant envS e) :
+    R (Impl.evalTree envI e) (Spec.eval envS e) := by
+  induction e with
+  | num raw =>
+    obtain ⟨x, hp, hn⟩ := hN
+    simp [Impl.evalTree, Impl.tokenToArg, Spec.eval, hp, Impl.mkNum, hn, R, toImpl]
+  | text s => simp [Impl.evalTree, Impl.tokenToArg, Spec.eval, R, toImpl, Tok.tvalue]
+  | logical raw => simp [Impl.evalTree, Impl.tokenToArg, Spec.eval, R, toImpl]
+  | ref k =>
+    have hk := hE k
+    simp only [Impl.evalTree, Spec.eval]
+    cases hs : envS k with
+    | none =>
+      cases hi : envI k with
+      | none => simp [R]
+      | some c => simp [hs, hi] at hk
+    | some a =>
+      cases hi : envI k with
+      | none => simp [hs, hi] at hk
+      | some c =>
+        simp only [hs, hi] at hk
+        have hne : ¬ IsErr a := by
+          have := hk.1
+          cases a <;> simp_all [IsErr, NotErr]
+        exact (R_ok _ a hne).mpr (by rw [← hk.2]; rfl)
+  | paren e ih => exact ih hN
+  | neg e ih =>
+    obtain ⟨h1, hnn, h3⟩ := hN
+    have ihe := ih h1
+    rw [Impl.evalTree_neg envI e hnn]
+    show R _ (Spec.neg (Spec.eval envS e))
+    by_cases he : IsErr (Spec.eval envS e)
+    · obtain ⟨m, hm⟩ := (R_err _ _ he).mp ihe
+      rw [hm]
+      exact (R_err _ _ (spec_neg_err _ he)).mpr ⟨m, rfl⟩
+    · rw [(R_ok _ _ he).mp ihe]
+      exact neg_R L hpn _ he h3
+  | pct e ih =>
+    obtain ⟨h1, h3⟩ := hN
+    have ihe := ih h1
+    rw [Impl.evalTree_pct]
+    show R _ (Spec.pct (Spec.eval envS e))
+    by_cases he : IsErr (Spec.eval envS e)
+    · obtain ⟨m, hm⟩ := (R_err _ _ he).mp ihe
+      rw [hm]
+      exact (R_err _ _ (spec_pct_err _ he)).mpr ⟨m, rfl⟩
+    · rw [(R_ok _ _ he).mp ihe]
+      exact pct_R _ he h3
+  | bin op l r ihl ihr =>
+    obtain ⟨hl, hr, hc⟩ := hN
+    have il := ihl hl
+    have ir := ihr hr
+    rw [Impl.evalTree_bin]
+    show R _ (Spec.binop op (Spec.eval envS l) (Spec.eval envS r))
+    by_cases hel : IsErr (Spec.eval envS l)
+    · obtain ⟨m, hm⟩ := (R_err _ _ hel).mp il
+      rw [hm]
+      exact (R_err _ _ (spec_binop_err op _ _ (Or.inl hel))).mpr ⟨m, rfl⟩
+    · rw [(R_ok _ _ hel).mp il]
+      by_cases her : IsErr (Spec.eval envS r)
+      · obtain ⟨m, hm⟩ := (R_err _ _ her).mp ir
+        rw [hm]
+        exact (R_err _ _ (spec_binop_err op _ _ (Or.inr her))).mpr ⟨m, rfl⟩
+      · rw [(R_ok _ _ her).mp ir]
+        rcases hc with h | h | h
+        · exact absurd h hel
+        · exact absurd h her
+        · exact binop_agree L C op _ _ h
+
+/-- clause "CalcCellValue evaluates expressions … with Excel's precedence, associativity and
+coercion rules, so its result equals that of an independent reference evaluator": ONE statement
+for whole formulas.  For every expression tree of any depth none of whose nodes is one of the
+listed deviant (operator, operand-kind) combinations (`NoDeviant`: `Compatible` at every binary
+node, `NegOK` / `PctOK` at unary nodes, no directly nested `--`), over two descriptions of the
+same workbook (`EnvRel`), the token machine of `evalInfixExp` run on the formula's tokens yields
+exactly Excel's value — the same number, text or boolean — and aborts with an error exactly
+when Excel's value is an error, which then propagates through every enclosing operator.
+It composes `shunting_yard_correct` with `binop_agree` by induction on the tree.
+Partial: the excluded combinations are the open findings. -/
+theorem calc_correct_partial {N : Type} [NumOps N] (L : Lawful N) (C : LawfulCmp N)
+    (hpn : (parse ([] : Str) : Option N) = none)
+    (envI : Str → Option (Impl.CellArg N)) (envS : Str → Option (Spec.Val N)) (hE : EnvRel envI envS)
+    (e : Expr) (hN : NoDeviant envS e) :
+    R (Impl.evalTokens envI (render 1 e)) (Spec.eval envS e) := by
+  rw [shunting_yard_correct]
+  exact tree_agree L C hpn envI envS hE e hN
+
+/-- non-vacuity of `calc_correct_partial`: all hypotheses hold on the integer instance for the
+formula `1+2*3<10` (empty workbook), whose value is TRUE on both sides -/
+theorem calc_correct_nonvacuous :
+    let e : Expr := .bin .lt (.bin .add (.num [49]) (.bin .mul (.num [50]) (.num [51]))) (.num [49, 48])
+    NoDeviant (N := Int) (fun _ => none) e ∧
+    EnvRel (N := Int) (fun _ => none) (fun _ => none) ∧
+    Impl.evalTokens (N := Int) (fun _ => none) (render 1 e) = .ok (.num 1 true) ∧
+    Spec.eval (N := Int) (fun _ => none) e = .bool true := by
+  have hfin : ∀ z : Int, Finite z := fun _ => ⟨rfl, rfl⟩
+  refine ⟨?_, fun _ => trivial, by decide +kernel, by decide +kernel⟩
+  have e1 : Spec.eval (N := Int) (fun _ => none) (.num [49]) = .num 1 := by decide +kernel
+  have e2 : Spec.eval (N := Int) (fun _ => none) (.num [50]) = .num 2 := by decide +kernel
+  have e3 : Spec.eval (N := Int) (fun _ => none) (.num [51]) = .num 3 := by decide +kernel
+  have e10 : Spec.eval (N := Int) (fun _ => none) (.num [49, 48]) = .num 10 := by decide +kernel
+  have em : Spec.eval (N := Int) (fun _ => none) (.bin .mul (.num [50]) (.num [51])) = .num 6 := by
+    decide +kernel
+  have ea : Spec.eval (N := Int) (fun _ => none)
+      (.bin .add (.num [49]) (.bin .mul (.num [50]) (.num [51]))) = .num 7 := by decide +kernel
+  have ao : ∀ x y : Int, ArithOperands (.num x : Spec.Val Int) (.num y) :=
+    fun x y => ⟨trivial, trivial, by simp, by simp, rfl, rfl⟩
+  refine ⟨⟨⟨1, by decide +kernel, rfl⟩, ⟨⟨2, by decide +kernel, rfl⟩, ⟨3, by decide +kernel, rfl⟩, ?_⟩, ?_⟩,
+    ⟨10, by decide +kernel, rfl⟩, ?_⟩
+  · rw [e2, e3]; exact Or.inr (Or.inr ⟨ao 2 3, fun _ _ _ _ => hfin _⟩)
+  · rw [e1, em]; exact Or.inr (Or.inr ⟨ao 1 6, fun _ _ _ _ => hfin _⟩)
+  · rw [ea, e10]; exact Or.inr (Or.inr ⟨rfl, rfl⟩)
+
+/-! ### the executable mirror used by the driver is sound -/
+
+theorem mirror_arithOperands {N : Type} [NumOps N] (a b : Spec.Val N)
+    (h : Check.arithOperands a b = true) : ArithOperands a b := by
+  simp only [Check.arithOperands, Bool.and_eq_true, Bool.not_eq_true'] at h
+  obtain ⟨⟨⟨⟨⟨h1, h2⟩, h3⟩, h4⟩, h5⟩, h6⟩ := h
+  have cl : ∀ v : Spec.Val N, Check.cleanB v = true → Clean v := by
+    intro v hv
+    cases v with
+    | num x => simpa [Check.cleanB, Clean] using hv
+    | text s =>
+      simp only [Clean]
+      intro x hx
+      simpa [Check.cleanB, hx] using hv
+    | _ => simp [Clean]
+  refine ⟨?_, ?_, ?_, ?_, cl a h5, cl b h6⟩
+  · cases a <;> simp_all [Check.isErr, NotErr]
+  · cases b <;> simp_all [Check.isErr, NotErr]
+  · intro e; subst e; simp [Check.emptyText] at h3
+  · intro e; subst e; simp [Check.emptyText] at h4
+
+theorem mirror_both {N : Type} [NumOps N] (a b : Spec.Val N) (f : N → N → Bool)
+    (h : Check.both a b f = true) (x y : N) (hx : Spec.toNum a = .ok x) (hy : Spec.toNum b = .ok y) :
+    f x y = true := by
+  simpa [Check.both, hx, hy] using h
+
+theorem mirror_finite {N : Type} [NumOps N] (x : N) (h : Check.finite x = true) : Finite x := by
+  simpa [Check.finite, Finite] using h
+
+theorem mirror_compatOrd {N : Type} [NumOps N] (a b : Spec.Val N) (h : Check.compatOrd a b = true) :
+    CompatOrd a b := by
+  cases a <;> cases b <;> simp_all [Check.compatOrd, CompatOrd]
+
+theorem mirror_numEq {N : Type} [NumOps N] (x y : N) (h : Check.numEq x y = true) :
+    (fmtG x = fmtG y ↔ (lt x y = false ∧ eq x y = true)) := by
+  unfold Check.numEq at h
+  by_cases h1 : fmtG x = fmtG y <;> cases h2 : lt x y <;> cases h3 : eq x y <;> simp_all
+
+theorem mirror_compatEq {N : Type} [NumOps N] (a b : Spec.Val N) (h : Check.compatEq a b = true) :
+    CompatEq a b := by
+  cases a <;> cases b <;> simp only [Check.compatEq] at h <;> simp only [CompatEq]
+  all_goals first
+    | exact mirror_numEq _ _ h
+    | trivial
+    | (simp_all)
+
+/-- the Boolean test the driver runs on every transcript line implies the hypothesis
+`Compatible` of `binop_agree` -/
+theorem mirror_compatible {N : Type} [NumOps N] (op : Op) (a b : Spec.Val N)
+    (h : Check.compatible op a b = true) : Compatible op a b := by
+  cases op <;> simp only [Check.compatible, Bool.and_eq_true] at h <;> simp only [Compatible]
+  case add => exact ⟨mirror_arithOperands a b h.1, fun x y hx hy => mirror_finite _ (mirror_both a b _ h.2 x y hx hy)⟩
+  case sub => exact ⟨mirror_arithOperands a b h.1, fun x y hx hy => mirror_finite _ (mirror_both a b _ h.2 x y hx hy)⟩
+  case mul => exact ⟨mirror_arithOperands a b h.1, fun x y hx hy => mirror_finite _ (mirror_both a b _ h.2 x y hx hy)⟩
+  case div =>
+    refine ⟨mirror_arithOperands a b h.1, fun x y hx hy hz => mirror_finite _ ?_⟩
+    have := mirror_both a b _ h.2 x y hx hy
+    simpa [hz] using this
+  case pow =>
+    refine ⟨mirror_arithOperands a b h.1, fun x y hx hy => ?_⟩
+    have := mirror_both a b _ h.2 x y hx hy
+    simp only [Bool.and_eq_true, Bool.or_eq_true, Bool.not_eq_true'] at this
+    refine ⟨fun hz => ?_, mirror_finite _ this.2⟩
+    rcases this.1 with h1 | h1
+    · rw [hz] at h1; cases h1
+    · exact h1
+  case concat =>
+    obtain ⟨⟨⟨h1, h2⟩, h3⟩, h4⟩ := h
+    have pl : ∀ v : Spec.Val N, Check.plainNum v = true → PlainNum v := by
+      intro v hv; cases v <;> simp_all [Check.plainNum, PlainNum]
+    refine ⟨?_, ?_, pl a h3, pl b h4⟩
+    · cases a <;> simp_all [Check.isErr, NotErr]
+    · cases b <;> simp_all [Check.isErr, NotErr]
+  case lt => exact mirror_compatOrd a b h
+  case le => exact mirror_compatOrd a b h
+  case gt => exact mirror_compatOrd a b h
+  case ge => exact mirror_compatOrd a b h
+  case eq => exact mirror_compatEq a b h
+  case ne => exact mirror_compatEq a b h
+
+theorem mirror_negOK {N : Type} [NumOps N] (a : Spec.Val N) (h : Check.negOK a = true) : NegOK a := by
+  cases a with
+  | err c => trivial
+  | num x =>
+    simp only [Check.negOK, Bool.and_eq_true, Bool.not_eq_true'] at h
+    exact ⟨h.1, mirror_finite _ h.2⟩
+  | bool b => exact mirror_finite _ h
+  | blank => exact mirror_finite _ h
+  | text s =>
+    simp only [Check.negOK] at h
+    cases hp : (parse s : Option N) with
+    | none => simp [hp] at h
+    | some x =>
+      simp only [hp, Bool.and_eq_true, Bool.not_eq_true'] at h
+      exact ⟨x, hp, h.1, mirror_finite _ h.2⟩
+
+theorem mirror_pctOK {N : Type} [NumOps N] (a : Spec.Val N) (h : Check.pctOK a = true) : PctOK a := by
+  cases a with
+  | err c => trivial
+  | text s => simp [Check.pctOK] at h
+  | num x => exact mirror_finite _ h
+  | bool b => exact mirror_finite _ h
+  | blank => exact mirror_finite _ h
+
+theorem mirror_isErr {N : Type} (a : Spec.Val N) (h : Check.isErr a = true) : IsErr a := by
+  cases a <;> simp_all [Check.isErr, IsErr]
+
+/-- the Boolean test the driver runs on every transcript line (`Check.noDeviant`) implies the
+hypothesis `NoDeviant` of `calc_correct_partial`: the lines on which the driver checks the
+theorem's conclusion against the real implementation are instances of the theorem -/
+theorem mirror_noDeviant {N : Type} [NumOps N] (envS : Str → Option (Spec.Val N)) (rk : Str → Bool)
+    (e : Expr) (h : Check.noDeviant envS rk e = true) : NoDeviant envS e := by
+  induction e with
+  | num raw =>
+    simp only [Check.noDeviant] at h
+    cases hp : (parse raw : Option N) with
+    | none => simp [hp] at h
+    | some x => exact ⟨x, hp, by simpa [hp] using h⟩
+  | text s => trivial
+  | logical raw => trivial
+  | ref k => trivial
+  | paren e ih => exact ih h
+  | neg e ih =>
+    simp only [Check.noDeviant, Bool.and_eq_true, Bool.not_eq_true'] at h
+    refine ⟨ih h.1.1, ?_, mirror_negOK _ h.2⟩
+    intro e' he
+    subst he
+    simp [Check.isNeg] at h
+  | pct e ih =>
+    simp only [Check.noDeviant, Bool.and_eq_true] at h
+    exact ⟨ih h.1, mirror_pctOK _ h.2⟩
+  | bin op l r ihl ihr =>
+    simp only [Check.noDeviant, Bool.and_eq_true, Bool.or_eq_true] at h
+    refine ⟨ihl h.1.1, ihr h.1.2, ?_⟩
+    rcases h.2 with (h1 | h1) | h1
+    · exact Or.inl (mirror_isErr _ h1)
+    · exact Or.inr (Or.inl (mirror_isErr _ h1))
+    · exact Or.inr (Or.inr (mirror_compatible op _ _ h1))
 
 /-! ## aggregates over ranges -/
 
